@@ -26,7 +26,7 @@ from typing import Any
 from sim import histsim, kit, project, runner
 
 PROP = "C04"
-FAMILY = {"seq": 128, "par": 24}  # finite scenario families (members are independent of VERIF_SEED)
+FAMILY = {"seq": 128, "par": 24, "plugraw": 24}  # finite scenario families (members are independent of VERIF_SEED)
 MUTATING = ("write", "remove", "commit", "commit_path")
 
 
@@ -386,7 +386,10 @@ def gen(k: int, tier: str) -> dict[str, Any]:
         n0 = rs.randint(0, 5)
         scn["project"] = dict(scn["project"], plugin=n0, plugin_wide=True)
         scn["steps"] = [dict(st) for st in scn["steps"]]
-        scn["steps"][-1]["edits"] = list(scn["steps"][-1]["edits"]) + [{"e": "plugin", "mod": "m0", "value": n0 + rs.choice([1, 2])}]
+        # the plugin change is the only edit of the last step in two of three members: every module record then
+        # stays valid by content, so only the plugins snapshot protects the next run from records of the old plugin
+        keep = list(scn["steps"][-1]["edits"]) if rs.random() < 0.34 else []
+        scn["steps"][-1]["edits"] = keep + [{"e": "plugin", "mod": "m0", "value": n0 + rs.choice([1, 2])}]
         scn["plug"] = True
     if rng.random() < 0.25:
         st2 = copy.deepcopy(base["project"])
@@ -395,6 +398,36 @@ def gen(k: int, tier: str) -> dict[str, Any]:
                 project.apply_edit(st2, e)
         scn["followup"] = {"edits": [project.gen_edit(rng, st2) for _ in range(rng.randint(1, 2))], "gap_s": 2.0}
     return scn
+
+
+PLUGRAW_BASE = 200000
+
+
+def gen_plugraw(k: int) -> dict[str, Any]:
+    """Plugin-change members with independent leaf modules (hand-shaped, not from the project model): after a change of
+    the plugin every module record is still valid by content and by the interfaces of its dependencies, so the plugins
+    snapshot alone decides whether records made by the old plugin are used again after an interrupted run."""
+    rng = kit.family_rng(PROP, "plugraw", k)
+    cfgs = [c for c in histsim.STORE_CONFIGS if not (c["format"] == "json" and c["shards"] == 1)]
+    cfg = cfgs[k % len(cfgs)]
+    n0 = rng.randint(0, 5)
+    leaves = ["a", "b", "c", "d"][: rng.randint(2, 4)]
+
+    def plug(n: int) -> str:
+        return project.PLUGIN_TEXT.format(n=n, t=["int", "str", "bool"][n % 3])
+
+    files = {"mypy.ini": "[mypy]\nplugins = simplug.py\n", "simplug.py": plug(n0),
+             "lib.py": "def f1() -> int: ...\ndef g() -> int: ...\n",
+             "main.py": "".join(f"import {m}\n" for m in leaves) + "reveal_type(a.x)\n"}
+    for m in leaves:
+        want = rng.choice(["int", "str", "bool"])
+        files[m + ".py"] = f"from lib import f1, g\nx: {want} = f1()\ny: int = g()\n" + ("reveal_type(f1())\n" if rng.random() < 0.5 else "")
+    edits: list[dict[str, Any]] = [{"e": "write", "path": "simplug.py", "text": plug(n0 + rng.choice([1, 2]))}]
+    if rng.random() < 0.3:
+        m = rng.choice(leaves)
+        edits.append({"e": "write", "path": m + ".py", "text": files[m + ".py"] + "z: str = g()\n"})
+    return {"files": files, "argv": ["main.py"], "config": cfg, "steps": [{"edits": edits, "gap_s": 2.0, "run": False}],
+            "warmups": rng.choice([1, 2]), "clock": rng.choice(["spread", "tight"]), "plug": True, "plugraw": True}
 
 
 def plan_class(plan: dict[str, Any], v: dict[str, Any]) -> str:
@@ -410,9 +443,9 @@ def plan_class(plan: dict[str, Any], v: dict[str, Any]) -> str:
 
 def task(item: tuple[int, str]) -> dict[str, Any]:
     k, tier = item
-    if k >= 100000:
+    if PLUGRAW_BASE > k >= 100000:
         return par_task((k - 100000, tier))
-    scn = gen(k, tier)
+    scn = gen_plugraw(k - PLUGRAW_BASE) if k >= PLUGRAW_BASE else gen(k, tier)
     r = evaluate(scn, f"s{k}", n_random=3 if tier == "quick" else 10)
     st = r["stats"]
     out: dict[str, Any] = {
@@ -427,9 +460,10 @@ def task(item: tuple[int, str]) -> dict[str, Any]:
         "n_plans": st["plans"],
     }
     if k % 20 == 0:
-        out["sample"] = {"config": scn["config"], "clock": scn["clock"], "steps": scn["steps"][:2], "modules": sorted(scn["project"]["mods"])}
+        out["sample"] = {"config": scn["config"], "clock": scn["clock"], "steps": scn["steps"][:2], "modules": sorted(scn["project"]["mods"]) if "project" in scn else sorted(scn["files"])}
     if r["violations"]:
-        out["violations"] = [{"scenario": scn, "plan": v["plan"], "violation": v["violation"], "family": "seq", "k": k} for v in r["violations"]]
+        fam, kk = ("plugraw", k - PLUGRAW_BASE) if k >= PLUGRAW_BASE else ("seq", k)
+        out["violations"] = [{"scenario": scn, "plan": v["plan"], "violation": v["violation"], "family": fam, "k": kk} for v in r["violations"]]
     return out
 
 
@@ -444,6 +478,8 @@ def minimise(v: dict[str, Any]) -> dict[str, Any]:
         return any(x["violation"]["kind"] == viol["kind"] for x in r["violations"])
 
     cur = copy.deepcopy(scn)
+    if "files" in cur:
+        return {"scenario": cur, "plan": plan, "violation": viol}  # hand-shaped members are already minimal
     if "followup" in cur:
         s2 = {k_: v_ for k_, v_ in cur.items() if k_ != "followup"}
         if still(s2):
@@ -487,7 +523,7 @@ def finalise_task(v: dict[str, Any]) -> dict[str, Any]:
         if not hit:
             raise kit.HarnessError(f"violation did not reproduce: {v['plan']} {v['violation']}")
         small = v
-    return {"scenario": small["scenario"], "plan": small["plan"], "violation": hit[0]["violation"], "family": "seq", "k": v.get("k")}
+    return {"scenario": small["scenario"], "plan": small["plan"], "violation": hit[0]["violation"], "family": v.get("family", "seq"), "k": v.get("k")}
 
 
 def match_known(cls: str, v: dict[str, Any], known: list[dict[str, Any]]) -> dict[str, Any] | None:
@@ -519,9 +555,11 @@ def run(tier: str) -> int:
     ]
     n = 16 if tier == "quick" else FAMILY["seq"]
     n_par = 4 if tier == "quick" else FAMILY["par"]
+    n_pr = 3 if tier == "quick" else FAMILY["plugraw"]
     items = [(k, tier) for k in kit.sample_indices(PROP, "seq", FAMILY["seq"], n)] + [(100000 + k, tier) for k in kit.sample_indices(PROP, "par", FAMILY["par"], n_par)]
+    items += [(PLUGRAW_BASE + k, tier) for k in kit.sample_indices(PROP, "plugraw", FAMILY["plugraw"], n_pr)]
     if os.environ.get("VERIF_C04_ONLY") == "plug":
-        items = [it for it in items if it[0] < 100000 and gen(it[0], tier).get("plug")]
+        items = [it for it in items if it[0] >= PLUGRAW_BASE or (it[0] < 100000 and gen(it[0], tier).get("plug"))]
     known = kit.load_known_findings(PROP)
     # determinism self-test: the same scenarios again must give the same plans, faults and verdicts
     n_det = 2 if tier == "quick" else 24
